@@ -288,6 +288,59 @@ def rule_image_fire(P):
     return R
 
 
+def _full_skeleton(f, subst=()):
+    """every exported event of the function in CFG-node order as normalised text (conditions, calls with arguments, local
+    definitions with their types and operators, stores, returns), with textual substitutions applied"""
+    g = Graph(f)
+    live = g.reach([g.entry])
+    out = []
+    def nz(t):
+        for a, b in subst:
+            t = t.replace(a, b)
+        return re.sub(r"\s+", " ", t)
+    for n in g.nodes:
+        if n.id not in live:
+            continue
+        if n.kind == "branch" and n.cond and len(n.succ) >= 2:
+            out.append("if " + nz(n.cond["text"]))
+        elif n.kind == "call":
+            out.append("call %s(%s)%s" % (nz(n.ev["q"].split("::")[-1]), ", ".join(nz(a) for a in n.ev["args"]), (" on " + nz(n.ev["recv"])) if n.ev.get("recv") else ""))
+        elif n.kind == "ldef":
+            out.append("def %s %s %s %s" % (nz(n.ev.get("vtype", "")), n.ev["var"], n.ev.get("op", "="), nz(n.ev.get("rhs", ""))))
+        elif n.kind == "store":
+            out.append("store %s %s %s" % (n.ev["member"].split("::")[-1], n.ev.get("op", "="), nz(n.ev["rhs"])))
+        elif n.kind == "ret":
+            out.append("return " + nz(n.ev["text"]))
+        elif n.kind == "throw":
+            out.append("throw " + n.ev.get("code", ""))
+    return out
+
+
+def rule_getelem_twins(P):
+    """dd_edge::getElemInt and getElemLong are the same lookup for int- and long-valued index sets"""
+    R = RuleResult("sibling.getelem-twins", "dd_edge::getElemLong is dd_edge::getElemInt with every int(…) conversion of an edge value replaced by long(…): same checks, same scan, same arithmetic, in the wider type")
+    a = P.find(M + "dd_edge::getElemInt")[0]
+    b = P.find(M + "dd_edge::getElemLong")[0]
+    R.functions |= {a["inst"], b["inst"]}
+    sa = _full_skeleton(a, subst=(("int(", "long("), ("operator int", "operator long"), ("(int)", "(long)")))
+    sb = _full_skeleton(b)
+    if len(sa) < 20:
+        raise AnalysisBroken("sibling.getelem-twins: skeleton of getElemInt has only %d events" % len(sa))
+    import difflib
+    sm = difflib.SequenceMatcher(a=sa, b=sb, autojunk=False)
+    diffs = [(tag, sa[i1:i2], sb[j1:j2]) for tag, i1, i2, j1, j2 in sm.get_opcodes() if tag != "equal"]
+    R.paths += 1
+    iid = "getElemLong ≡ getElemInt[int→long] (%d events)" % len(sa)
+    if not diffs:
+        R.ok(iid, where(b), events=len(sa))
+    else:
+        tag, xa, xb = diffs[0]
+        R.fail(iid, where(b), Finding(R.rule, b["file"], b["q"], "twin",
+               "the long-valued lookup differs from the int-valued one beyond the int→long widening: int version has %s, long version has %s (%d difference(s))" % (xa[:2], xb[:2], len(diffs)), b["line"]))
+    R.require_floor(1, "lookup twins")
+    return R
+
+
 SMALL_CONSTS = ("smallestChunk()", "SmallestChunk", "MediumHoleSize")
 
 
